@@ -80,11 +80,57 @@ func IntersectsIANAReserved(net net.IPNet) bool {
 		return true
 	}
 	for _, reserved := range reservedNetworks {
-		if reserved.Contains(net.IP) || net.Contains(reserved.IP) {
+		if reserved.Contains(net.IP) || net.Contains(reserved.IP) || networksShareAddress(&net, reserved) {
 			return true
 		}
 	}
 	return false
+}
+
+// networksShareAddress reports whether some address lies in both networks: the
+// two network numbers agree on every bit that both masks fix. For CIDR masks
+// that is the case exactly when one network contains the other's number, but
+// the address and mask of a name constraint are two byte strings and the mask
+// need not be a prefix.
+func networksShareAddress(a, b *net.IPNet) bool {
+	ipA, maskA := addressAndMask(a)
+	ipB, maskB := addressAndMask(b)
+	if ipA == nil || ipB == nil || len(ipA) != len(ipB) {
+		return false
+	}
+	for i := range ipA {
+		if (ipA[i]^ipB[i])&maskA[i]&maskB[i] != 0 {
+			return false
+		}
+	}
+	return true
+}
+
+// addressAndMask returns the address and mask of a network in the form
+// net.IPNet.Contains compares them in (4 bytes each for an IPv4 network), or
+// nil if their lengths do not fit together.
+func addressAndMask(n *net.IPNet) (net.IP, net.IPMask) {
+	ip := n.IP.To4()
+	if ip == nil {
+		ip = n.IP
+		if len(ip) != net.IPv6len {
+			return nil, nil
+		}
+	}
+	mask := n.Mask
+	switch len(mask) {
+	case net.IPv4len:
+		if len(ip) != net.IPv4len {
+			return nil, nil
+		}
+	case net.IPv6len:
+		if len(ip) == net.IPv4len {
+			mask = mask[12:]
+		}
+	default:
+		return nil, nil
+	}
+	return ip, mask
 }
 
 func init() {
